@@ -905,11 +905,14 @@ class Messenger(Connection):
 
         sock_tls = self.get_secure_socket()
         if sock_tls:
-            # Native (python ssl) validation for reference
-            try:
-                ssl.match_hostname(sock_tls.getpeercert(), peer_dnsid or peer_addr_str)
-            except ssl.CertificateError as err:
-                self._logger.warning('Native name validation failed: %s', err)
+            # Native (python ssl) validation for reference,
+            # ssl.match_hostname() is gone from python 3.12 on
+            native_match = getattr(ssl, 'match_hostname', None)
+            if native_match is not None:
+                try:
+                    native_match(sock_tls.getpeercert(), peer_dnsid or peer_addr_str)
+                except ssl.CertificateError as err:
+                    self._logger.warning('Native name validation failed: %s', err)
 
             # Verify TLS name bindings
             cert_der = sock_tls.getpeercert(True)
